@@ -34,6 +34,9 @@ LitsThree == {"0", "3", "2.5"}
 FamAll == {"pairs", "unbin", "tricky", "scale"}
 FamTies == {"ties"}
 FamTiesT == {"ties", "tiesT"}
+FamTiesSpell == {"ties", "spell"}
+FamTiesSpellT == {"ties", "tiesT", "spell", "spellT"}
+FamSpell == {"spell"}
 FamPairs == {"pairs"}
 FamUn == {"unbin", "tricky"}
 NoFam == {}
@@ -149,7 +152,90 @@ TieKinds(a) ==
                     ELSE IF v.nr THEN {"round-tie-decimal-only"}
                     ELSE {"round-tie-undecided"})
 
-Trees(top) == (IF "scale" \in Families THEN Scale(top) ELSE {}) \cup (IF "ties" \in Families THEN Ties(top) ELSE {}) \cup (IF "pairs" \in Families THEN Pairs(top) ELSE {})
+(* ---- numeral SPELLINGS of one value (family "spell"; "spellT" widens it) ----                 *)
+(* The same number written with leading zeros, with a fraction of zeros, with a bare trailing or   *)
+(* leading point (Expr!SpellChars), bare, signed, and as the operand of operators that keep or     *)
+(* combine the value: what a count looks like when it comes out of padleft, #time, a template      *)
+(* argument, a table cell.  The value of every such expression is that of its canonical spelling; *)
+(* what plural / #ifexpr select is decided by the value, not by the spelling.                      *)
+SpellWide == "spellT" \in Families
+SpellGroupsQ ==      \* canonical numeral :> its other spellings
+  ("0" :> {"00", "0.0", "0.", ".0"}) @@
+  ("1" :> {"01", "001", "1.0", "1.00", "01.0", "1."}) @@
+  ("2" :> {"02", "2.0"}) @@
+  ("10" :> {"010", "10.0"}) @@
+  ("1.5" :> {"01.5", "1.50"}) @@
+  ("0.5" :> {"00.5", ".50", ".5"})
+SpellGroupsT ==
+  ("0" :> {"00", "000", "0.0", "0.", ".0", "00.00"}) @@
+  ("1" :> {"01", "001", "0001", "1.0", "1.00", "01.0", "1.", "01.", "001.000"}) @@
+  ("2" :> {"02", "002", "2.0", "02.00", "2."}) @@
+  ("10" :> {"010", "0010", "10.0", "10."}) @@
+  ("1.5" :> {"01.5", "1.50", "001.500"}) @@
+  ("0.5" :> {"00.5", "0.50", ".50", ".5"}) @@
+  ("11" :> {"011", "11.0"}) @@ ("21" :> {"021"}) @@ ("101" :> {"0101"}) @@ ("100" :> {"0100", "100.0"}) @@
+  ("0.1" :> {"0.10", "00.1", ".1"}) @@ ("1.1" :> {"1.10", "01.1"})
+SpellGroups == IF SpellWide THEN SpellGroupsT ELSE SpellGroupsQ
+SpellCanon == DOMAIN SpellGroups
+SpellNums == SpellCanon \cup UNION {SpellGroups[c] : c \in SpellCanon}
+SpellOnes == {"1"} \cup SpellGroups["1"]
+SpellZeros == {"0"} \cup SpellGroups["0"]
+SpellSome == {"1", "01", "1.0", "02", "2", "0", "00"}
+Spells(top) ==
+  CASE top = "lit" -> {L(t) : t \in SpellNums}
+    [] top = "+" -> {Un("+", L(t)) : t \in SpellNums} \cup {Bin("+", L(t), L(z)) : t \in SpellNums, z \in {"0", "00", "0.0"}}
+                    \cup {Bin("+", L(z), L(t)) : t \in SpellNums, z \in {"00", "1", "01"}}
+                    \cup (IF SpellWide THEN {Un("+", Un("+", L(t))) : t \in SpellNums} ELSE {})
+    [] top = "-" -> {Un("-", L(t)) : t \in SpellNums} \cup {Un("-", Un("-", L(t))) : t \in SpellNums}
+                    \cup {Bin("-", L(u), L(t)) : t \in SpellNums, u \in {"2", "02", "3"}}
+                    \cup {Bin("-", L(t), L(u)) : t \in SpellNums, u \in {"1", "01", "0", "00"}}
+    [] top = "*" -> {Bin("*", L(t), L(u)) : t \in SpellNums, u \in SpellOnes}
+                    \cup {Bin("*", L(u), L(t)) : t \in SpellNums, u \in {"01", "1.0", "0.5", "00.5"}}
+    [] top \in {"/", "div"} -> {Bin(top, L(t), L(u)) : t \in SpellNums, u \in {"1", "01", "2", "02"} \cup (IF SpellWide THEN {"1.0", "010"} ELSE {})}
+                    \cup {Bin(top, L(u), L(t)) : t \in SpellNums, u \in {"02", "010"}}
+    [] top = "e" -> {Bin("e", L(t), L(z)) : t \in SpellNums, z \in {"0", "00", "01"}}
+                    \cup {Bin("e", L(t), Un("-", L(z))) : t \in SpellNums, z \in {"0", "00", "01"}}
+                    \cup {Bin("e", L(u), L(t)) : t \in {"0", "00", "1", "01", "001", "02"}, u \in SpellSome}
+    [] top = "^" -> {Bin("^", L(t), L(u)) : t \in SpellNums, u \in {"1", "01", "0", "00", "02"}}
+                    \cup {Bin("^", L(u), L(t)) : t \in SpellNums, u \in {"01", "02"}}
+    [] top = "mod" -> {Bin("mod", L(t), L(u)) : t \in SpellNums, u \in {"010", "02", "2"}}
+                    \cup {Bin("mod", L(u), L(t)) : t \in SpellNums, u \in {"011" , "3"}}
+    [] top = "round" -> {Bin("round", L(t), L(z)) : t \in SpellNums, z \in {"0", "00", "01", "1.0"}}
+    [] top \in CmpOps -> {Bin(top, L(t), L(u)) : t \in SpellNums,
+                                                  u \in (IF SpellWide /\ top \in {"=", "<"} THEN SpellNums
+                                                         ELSE IF SpellWide \/ top \in {"=", "<"} THEN SpellSome ELSE {"1", "01", "00"})}
+    [] top \in {"and", "or"} -> {Bin(top, L(t), L(u)) : t \in SpellNums, u \in (IF SpellWide THEN SpellSome ELSE {"01", "0", "00"})}
+    [] top \in {"not", "abs", "floor", "ceil", "trunc"} -> {Un(top, L(t)) : t \in SpellNums} \cup {Un(top, Un("-", L(t))) : t \in SpellNums}
+    [] OTHER -> {}
+TopOf(a) == IF a[1] = "lit" THEN "lit" ELSE a[2]
+IsSpellTree(a) == "spell" \in Families /\ a \in Spells(TopOf(a))
+
+\* the ways the numerals of a tree are spelled (reported with every generated case)
+RECURSIVE SpellKinds(_)
+SpellKinds(a) ==
+  CASE a[1] = "lit" -> (IF a[2] \in DOMAIN SpellChars THEN NumeralSpelling(SpellChars[a[2]])
+                       ELSE IF a[2] \in DOMAIN LitTable THEN NumeralSpelling(CharsOf[a[2]]) ELSE {})
+    [] a[1] = "un" -> SpellKinds(a[3])
+    [] a[1] = "bin" -> SpellKinds(a[3]) \cup SpellKinds(a[4])
+
+\* M (C18, numerals): every spelling is ONE lexeme of the tokeniser, the spellings of a group denote the
+\* number of their canonical numeral (positional notation), and -- the statement for this family --
+\* a tree has the value of the tree with every numeral replaced by its canonical spelling
+CanonOf(t) == IF \E c \in SpellCanon : t \in SpellGroups[c] THEN CHOOSE c \in SpellCanon : t \in SpellGroups[c] ELSE t
+RECURSIVE Canonical(_)
+Canonical(a) ==
+  CASE a[1] = "lit" -> L(CanonOf(a[2]))
+    [] a[1] = "un" -> Un(a[2], Canonical(a[3]))
+    [] a[1] = "bin" -> Bin(a[2], Canonical(a[3]), Canonical(a[4]))
+CharsOfNumeral(t) == IF t \in DOMAIN SpellChars THEN SpellChars[t] ELSE CharsOf[t]
+SpellingsDenoteTheirNumber ==
+  (x = <<"root">> /\ "spell" \in Families) =>
+    /\ \A t \in DOMAIN SpellChars : Tokenize(SpellChars[t]) = <<SpellChars[t]>> /\ AllLits[t] = NumeralValue(SpellChars[t])
+    /\ \A t \in DOMAIN LitTable : NumeralValue(CharsOf[t]) = LitTable[t]
+    /\ \A c \in SpellCanon : /\ NumeralSpelling(CharsOfNumeral(c)) = {}
+                              /\ \A t \in SpellGroups[c] : /\ AllLits[t] = AllLits[c]
+                                                            /\ NumeralSpelling(CharsOfNumeral(t)) # {}
+Trees(top) == (IF "spell" \in Families THEN Spells(top) ELSE {}) \cup (IF "scale" \in Families THEN Scale(top) ELSE {}) \cup (IF "ties" \in Families THEN Ties(top) ELSE {}) \cup (IF "pairs" \in Families THEN Pairs(top) ELSE {})
               \cup (IF "unbin" \in Families THEN UnBin(top) ELSE {})
               \cup (IF "tricky" \in Families THEN Tricky(top) ELSE {})
 
@@ -177,6 +263,12 @@ ReferenceComputesFold ==
   LET f == Fold(x) IN
   /\ Same(MWOutcome(RenderMin(x)), f)
   /\ Same(MWOutcome(RenderFull(x)), f)
+
+ValueIndependentOfSpelling ==
+  (IsTree /\ IsSpellTree(x)) =>
+    LET f == Fold(x) g == Fold(Canonical(x)) IN
+    /\ Same(Proj(f), Proj(g))
+    /\ (f.kind = "val" => Truth(f) = Truth(g) /\ Cmp3(f, One) = Cmp3(g, One))
 
 \* M (C18, declarative reference for round): when the code holds the number as written
 \* (Near) the value of `v round k` is the multiple of 10^-k nearest to v, and of the two
